@@ -564,6 +564,31 @@ def t_sqrt(I, x):
     return sqrt_term(I, x)
 
 
+def t_hardshrink(I, x, lambd=Fraction(1, 2)):
+    """torch.nn.functional.hardshrink: x if |x| > lambd else 0 (element-wise, out of place)"""
+    lam = _scalar(lambd)
+    return T.unary(lambda v: ops.ite(ops.compare(ast.Gt, ops.absval(v), lam), v, Fraction(0)), x)
+
+
+def t_clamp(I, x, min=None, max=None):
+    return tensor_method(I, x, "clamp", [min, max], {})
+
+
+def t_clone(I, x, **k):
+    return x.copy() if isinstance(x, T.LamTensor) else x
+
+
+def t_relu(I, x):
+    return T.unary(lambda v: ops.maximum(v, Fraction(0)), x)
+
+
+TORCH_DOTTED = {
+    "torch.nn.functional.hardshrink": t_hardshrink,
+    "torch.nn.functional.relu": t_relu,
+    "torch.clamp": t_clamp, "torch.clip": t_clamp, "torch.clone": t_clone, "torch.relu": t_relu,
+}
+
+
 TORCH = {
     "as_tensor": t_as_tensor, "tensor": t_tensor, "zeros": t_zeros, "ones": t_ones,
     "zeros_like": t_zeros_like, "ones_like": t_ones_like, "empty_like": t_empty_like, "arange": t_arange, "eye": t_eye,
